@@ -6,9 +6,10 @@ import json, os
 V = '/verif'
 props = [json.loads(l)['id'] for l in open(V + '/properties.jsonl')]
 
-COMMON_NOTE = ('Trusted base: rustc nightly MIR at mir_promoted (opt-level 0, overflow checks), the rule code in /verif/rules, the spec tables in /verif/spec, the '
-               'extern-effect summaries of ntex-io/ntex-bytes/ntex-util/std calls. cfg(test) code is not analysed. Rules fail closed (anchor-lost) when an anchored '
-               'function or an instance count below the hand-counted floor disappears, which a wholesale refactor of an anchored function can trigger. ')
+COMMON_NOTE = ('Trusted base: rustc nightly MIR at mir_promoted (opt-level 0, overflow checks), the rule code in /verif/rules (including the normalisation of rules/inline.py: '
+               'functions that do not exist on the pinned tree are spliced into their callers, constant returns are threaded, combinators over new closures are expanded), the spec tables '
+               'in /verif/spec, the extern-effect summaries of ntex-io/ntex-bytes/ntex-util/std calls. cfg(test) code is not analysed. Rules fail closed (anchor-lost) when an anchored '
+               'function disappears or is renamed, or an enumeration becomes vacuous; an expression a secondary lemma cannot interpret is reported as undecided (counted in the evidence), not as a violation. ')
 
 CLAIMS = {
     'C06': dict(
@@ -195,9 +196,13 @@ CLAIMS = {
              'apply it to every filter and map false to Subs_4_7_1 without reaching a handler; the per-level tables of the string MatchLevel impl and of match_level_impl are '
              'extracted and compared with 4.7 over all (filter kind, topic kind, index==0, string equality) cases; match_topic\'s end-of-topic rule (only None or # succeed); '
              'the filter-vs-filter relation is monotone w.r.t. the string relation over all kind combinations; every parameter of match_level_impl is used.'
-             ' TopicFilterLevel::is_valid refuses + and # inside every text-carrying level variant.',
-        note='Not decided: agreement of the structural validator TopicFilter::is_valid / TryFrom<ByteString> with is_valid (iterator-combinator code, no finite table), Display '
-             'round trip, unicode levels. A seeded change in that undecided part (C18-m2) is a documented miss.',
+             ' TopicFilterLevel::is_valid refuses + and # inside every text-carrying level variant.'
+             ' One iteration of match_topic is extracted as a table (topic has a level / exhausted x next filter level kind x level test) and compared with 4.7; the per-level classifier '
+             'of TryFrom<ByteString> is extracted (closure or loop form) and evaluated for sample level texts and positions, the conversion splits at `/`, counts positions from 0, refuses '
+             'the empty string and lets the structural validator decide last; Display for TopicFilterLevel is the inverse table of that classifier and Display for TopicFilter writes `/` '
+             'by position only.',
+        note='Not decided: agreement of the structural validator TopicFilter::is_valid (iterator combinators over level sequences, no finite table) with the string validator, unicode '
+             'levels, the round trip for concrete strings (only the per-level tables being inverse and the separator discipline). A seeded change in the undecided part (C18-m2) is a documented miss.',
         ref='DESIGN.md section 5 C18'),
     'C04': dict(
         technique='MIR edge-dominance rules on the response queue (head condition, park, slot-per-call) + constants of the control pipeline (static analysis)',
@@ -230,7 +235,14 @@ def main():
     checks = []
     for p in props:
         if p in CLAIMS:
-            c = CLAIMS[p]
+            c = dict(CLAIMS[p])
+            # rules added after later seed rounds are described once, in the module docstring ("... (continued): ...")
+            import importlib, sys, re as _re
+            sys.path.insert(0, V + '/rules')
+            doc = ' '.join((importlib.import_module(p.lower()).__doc__ or '').split())
+            extra = _re.findall(r'[a-z][a-z-]* \(continued[^)]*\):.*?(?=(?: [a-z][a-z-]* \(continued)|$)', doc)
+            if extra:
+                c['text'] = c['text'] + ' Added later: ' + ' '.join(x.strip() for x in extra)
             checks.append({
                 'property_id': p,
                 'quick_cmd': './check %s --tier quick' % p,
